@@ -1,5 +1,4 @@
 \* GENERATED by gen_tokparam_cfgs.py
-\* POptTokSpTermF without quoted values: ResumeEqFresh holds (see MC_TokParam_tok_f4_quote*.cfg).
 SPECIFICATION Spec
 VIEW view
 CONSTANTS
